@@ -1,8 +1,350 @@
-/-! Line-protocol driver for component `NodeSend` (stub; the component owner replaces `run`). -/
+import Lean.Data.Json
+import PSO.Model.NodeSend
+
+/-! Line-protocol driver for component `nodesend` (C11, node-local parts of C02 and C10).
+
+One JSON object per input line, one JSON object per output line; every case is self-contained.
+
+CMD   = `[kind, node, id, size, ovh]`, kind ∈ "noop" "reg" "ver" "add" "rem" "memother"
+ENTRY = `[CMD, idx, term]`;  PREV = `null | [idx, term]`;  CB = `null | ["loc", id] | ["rem", node, req]`
+CONF  = `{"batch","useBatch","dyn","waitLeader","queueMax"}`
+STATE = `{"self","role","term","leader","log","commit","lastApplied","members","readonly","connected",
+          "next","match","queue","waitCommit","waitReply","counter","noop","change","buf"}`
+          (`buf` = `null | [[ENTRY,pos,len]…]`: slices of pickled entries; output `[[idx,pos,len]…]`)
+MSG   = `{"t":"append",…} | {"t":"chunk",…} | {"t":"snap",…} | {"t":"apply_command",…} | {"t":"response",…} | {"t":"next",…}`
+OUT   = `["send",dst,MSG] | ["cb",id,code] | ["addNode",n] | ["dropNode",n]`
+
+ops: `send` (one destination), `sendall`, `check`, `submit`, `recv_apply`, `recv_response`,
+`leader_changed`, `fappend`, `restore`, `reapply`, `chunks`, `fold`, `admin_remove`.
+-/
 namespace Driver.NodeSend
+open Lean PSO.NodeSend
+
+def jNat (j : Json) : Except String Nat := j.getNat?
+def jArr (j : Json) : Except String (Array Json) := j.getArr?
+def jBool (j : Json) : Except String Bool := j.getBool?
+
+def fld (j : Json) (k : String) : Except String Json := j.getObjVal? k
+
+def fldD (j : Json) (k : String) : Json :=
+  match j.getObjVal? k with
+  | .ok v => v
+  | .error _ => Json.null
+
+def jOptNat (j : Json) : Except String (Option Nat) :=
+  if j.isNull then pure none else return some (← jNat j)
+
+def jNats (j : Json) : Except String (List Nat) := do (← jArr j).toList.mapM jNat
+
+def jCmd (j : Json) : Except String Cmd := do
+  let a ← jArr j
+  if a.size != 5 then throw "cmd: need 5 fields"
+  let k ← a[0]!.getStr?
+  let n ← jNat a[1]!
+  let kind ← match k with
+    | "noop" => pure Kind.noop
+    | "reg" => pure Kind.regular
+    | "ver" => pure Kind.version
+    | "add" => pure (Kind.add n)
+    | "rem" => pure (Kind.rem n)
+    | "memother" => pure Kind.memOther
+    | _ => throw s!"cmd: bad kind {k}"
+  return ⟨kind, ← jNat a[2]!, ← jNat a[3]!, ← jNat a[4]!⟩
+
+def jEntry (j : Json) : Except String Entry := do
+  let a ← jArr j
+  if a.size != 3 then throw "entry: need 3 fields"
+  return ⟨← jCmd a[0]!, ← jNat a[1]!, ← jNat a[2]!⟩
+
+def jEntries (j : Json) : Except String (List Entry) := do (← jArr j).toList.mapM jEntry
+
+def jPrev (j : Json) : Except String (Option (Nat × Nat)) := do
+  if j.isNull then return none
+  let a ← jArr j
+  if a.size != 2 then throw "prev: need 2 fields"
+  return some (← jNat a[0]!, ← jNat a[1]!)
+
+def jCb (j : Json) : Except String Cb := do
+  if j.isNull then return Cb.none
+  let a ← jArr j
+  match (← a[0]!.getStr?), a.size with
+  | "loc", 2 => return Cb.loc (← jNat a[1]!)
+  | "rem", 3 => return Cb.remote (← jNat a[1]!) (← jNat a[2]!)
+  | _, _ => throw "cb: bad"
+
+def jMap (j : Json) : Except String Map := do
+  (← jArr j).toList.mapM fun p => do
+    let a ← jArr p
+    if a.size != 2 then throw "map: need pairs"
+    return (← jNat a[0]!, ← jNat a[1]!)
+
+def jOptBools (j : Json) : Except String (List (Option Bool)) := do
+  (← jArr j).toList.mapM fun b => do
+    if b.isNull then return none else return some (← jBool b)
+
+def jSpans (j : Json) : Except String (List PByte) := do
+  let parts ← (← jArr j).toList.mapM fun p => do
+    let a ← jArr p
+    if a.size != 3 then throw "span: need 3 fields"
+    let e ← jEntry a[0]!
+    return slice (pickleEntry e) (← jNat a[1]!) (← jNat a[2]!)
+  return parts.flatten
+
+def jLabel (j : Json) : Except String Label := do
+  match (← j.getStr?) with
+  | "start" => return .start
+  | "process" => return .process
+  | "finish" => return .finish
+  | s => throw s!"label: {s}"
+
+def jRole (j : Json) : Except String Role := do
+  match (← jNat j) with
+  | 0 => return .follower
+  | 1 => return .candidate
+  | 2 => return .leader
+  | _ => throw "role"
+
+def jConf (j : Json) : Except String Conf := do
+  return { batch := ← jNat (← fld j "batch"), useBatch := ← jBool (← fld j "useBatch"),
+           dynMember := ← jBool (← fld j "dyn"), waitLeader := ← jBool (← fld j "waitLeader"),
+           queueMax := ← jNat (← fld j "queueMax") }
+
+def jState (j : Json) : Except String Node := do
+  let queue ← (← jArr (← fld j "queue")).toList.mapM fun p => do
+    let a ← jArr p
+    if a.size != 2 then throw "queue: need pairs"
+    return (← jCmd a[0]!, ← jCb a[1]!)
+  let wc ← (← jArr (← fld j "waitCommit")).toList.mapM fun p => do
+    let a ← jArr p
+    if a.size != 3 then throw "waitCommit: need triples"
+    return (← jNat a[0]!, ← jNat a[1]!, ← jNat a[2]!)
+  let bufJ := fldD j "buf"
+  let buf ← if bufJ.isNull then pure none else (do return some (← jSpans bufJ))
+  return { self := ← jOptNat (← fld j "self"), role := ← jRole (← fld j "role"),
+           term := ← jNat (← fld j "term"), leader := ← jOptNat (← fld j "leader"),
+           log := ← jEntries (← fld j "log"), commit := ← jNat (← fld j "commit"),
+           lastApplied := ← jNat (← fld j "lastApplied"), members := ← jNats (← fld j "members"),
+           readonly := ← jNats (← fld j "readonly"), connected := ← jNats (← fld j "connected"),
+           nextIndex := ← jMap (← fld j "next"), matchIndex := ← jMap (← fld j "match"),
+           queue := queue, waitCommit := wc, waitReply := ← jMap (← fld j "waitReply"),
+           localCounter := ← jNat (← fld j "counter"), noopIdx := ← jOptNat (← fld j "noop"),
+           changeIdx := ← jOptNat (← fld j "change"), recvBuf := buf }
+
+/-! ### output -/
+
+def nat (n : Nat) : Json := Json.num (JsonNumber.fromNat n)
+def optNat : Option Nat → Json
+  | none => Json.null
+  | some n => nat n
+def nats (l : List Nat) : Json := Json.arr (l.map nat).toArray
+
+def kindStr : Kind → String × Nat
+  | .noop => ("noop", 0) | .regular => ("reg", 0) | .version => ("ver", 0)
+  | .add n => ("add", n) | .rem n => ("rem", n) | .memOther => ("memother", 0)
+
+def cmdJ (c : Cmd) : Json :=
+  let (k, n) := kindStr c.kind
+  Json.arr #[Json.str k, nat n, nat c.id, nat c.size, nat c.ovh]
+
+def entryJ (e : Entry) : Json := Json.arr #[cmdJ e.cmd, nat e.idx, nat e.term]
+
+def prevJ : Option (Nat × Nat) → Json
+  | none => Json.null
+  | some (i, t) => Json.arr #[nat i, nat t]
+
+def labelStr : Label → String
+  | .start => "start" | .process => "process" | .finish => "finish"
+
+def errStr : Err → String
+  | .indexError => "IndexError" | .keyError => "KeyError" | .typeError => "TypeError"
+  | .assertionError => "AssertionError" | .unpickle => "Unpickle"
+
+def msgJ : Msg → Json
+  | .append t c p es => Json.mkObj [("t", "append"), ("term", nat t), ("commit", nat c), ("prev", prevJ p),
+      ("entries", Json.arr (es.map entryJ).toArray)]
+  | .chunk l pos len e t c p => Json.mkObj [("t", "chunk"), ("label", labelStr l), ("pos", nat pos), ("len", nat len),
+      ("idx", nat e.idx), ("term", nat t), ("commit", nat c), ("prev", prevJ p)]
+  | .snap t c d => Json.mkObj [("t", "snap"), ("term", nat t), ("commit", nat c),
+      ("data", match d with | none => Json.null | some b => Json.bool b)]
+  | .applyCommand c r => Json.mkObj [("t", "apply_command"), ("cmd", cmdJ c), ("req", optNat r)]
+  | .response r (.error f) => Json.mkObj [("t", "response"), ("req", nat r), ("err", nat f.code)]
+  | .response r (.ok (i, t)) => Json.mkObj [("t", "response"), ("req", nat r), ("err", Json.null), ("idx", nat i), ("lterm", nat t)]
+  | .nextNodeIdx n r s t => Json.mkObj [("t", "next"), ("next", nat n), ("reset", Json.bool r), ("success", Json.bool s), ("term", nat t)]
+
+def outJ : Out → Json
+  | .send d m => Json.arr #[Json.str "send", nat d, msgJ m]
+  | .callback cb r => Json.arr #[Json.str "cb", nat cb, nat r.code]
+  | .addNode n => Json.arr #[Json.str "addNode", nat n]
+  | .dropNode n => Json.arr #[Json.str "dropNode", nat n]
+
+def outsJ (o : List Out) : Json := Json.arr (o.map outJ).toArray
+
+def cbJ : Cb → Json
+  | .none => Json.null
+  | .loc id => Json.arr #[Json.str "loc", nat id]
+  | .remote n r => Json.arr #[Json.str "rem", nat n, nat r]
+
+def mapJ (m : Map) : Json := Json.arr ((sortByKey m).map fun p => Json.arr #[nat p.1, nat p.2]).toArray
+
+/-- run-length compression of the abstract receive buffer: `[idx, pos, len]` -/
+def spansOf : List PByte → List (Nat × Nat × Nat)
+  | [] => []
+  | (e, i) :: rest =>
+    match spansOf rest with
+    | (idx, p, n) :: more => if idx = e.idx ∧ p = i + 1 then (idx, i, n + 1) :: more else (e.idx, i, 1) :: (idx, p, n) :: more
+    | [] => [(e.idx, i, 1)]
+
+def roleNat : Role → Nat
+  | .follower => 0 | .candidate => 1 | .leader => 2
+
+def insertNat (n : Nat) : List Nat → List Nat
+  | [] => [n]
+  | m :: rest => if n ≤ m then n :: m :: rest else m :: insertNat n rest
+
+def sortNats (l : List Nat) : List Nat := l.foldr insertNat []
+
+def insertWC (p : Nat × Nat × Nat) : List (Nat × Nat × Nat) → List (Nat × Nat × Nat)
+  | [] => [p]
+  | q :: rest => if p.1 < q.1 then p :: q :: rest else q :: insertWC p rest
+
+/-- stable sort by index (insertion from the left keeps the order inside one index) -/
+def sortWC (l : List (Nat × Nat × Nat)) : List (Nat × Nat × Nat) := l.foldl (fun acc p => insertWC p acc) []
+
+def stateJ (s : Node) : Json :=
+  Json.mkObj [("self", optNat s.self), ("role", nat (roleNat s.role)), ("term", nat s.term), ("leader", optNat s.leader),
+    ("log", Json.arr (s.log.map entryJ).toArray), ("commit", nat s.commit), ("lastApplied", nat s.lastApplied),
+    ("members", nats (sortNats s.members)), ("readonly", nats (sortNats s.readonly)), ("connected", nats (sortNats s.connected)),
+    ("next", mapJ s.nextIndex), ("match", mapJ s.matchIndex),
+    ("queue", Json.arr (s.queue.map fun p => Json.arr #[cmdJ p.1, cbJ p.2]).toArray),
+    ("waitCommit", Json.arr ((sortWC s.waitCommit).map fun p => Json.arr #[nat p.1, nat p.2.1, nat p.2.2]).toArray),
+    ("waitReply", mapJ s.waitReply), ("counter", nat s.localCounter), ("noop", optNat s.noopIdx),
+    ("change", optNat s.changeIdx),
+    ("buf", match s.recvBuf with
+      | none => Json.null
+      | some b => Json.arr ((spansOf b).map fun p => Json.arr #[nat p.1, nat p.2.1, nat p.2.2]).toArray)]
+
+def branchStr : Branch → String
+  | .appendLocal => "appendLocal" | .appendRemote => "appendRemote" | .denied => "denied"
+  | .forward => "forward" | .notLeader => "notLeader" | .missingLeader => "missingLeader"
+
+def batchStr : Batch → String
+  | .regular _ es => if es.isEmpty then "heartbeat" else "regular"
+  | .chunked _ _ => "chunked"
+  | .snapshot _ => "snapshot"
+
+def errJ (e : Err) : Json := Json.mkObj [("err", errStr e)]
+
+/-! ### dispatch -/
+
+def handle (j : Json) : Except String Json := do
+  let op ← (← fld j "op").getStr?
+  match op with
+  | "send" =>
+    let c : SendCfg := ⟨← jNat (← fld j "B"), ← jNat (← fld j "term"), ← jNat (← fld j "commit"), ← jOptNat (fldD j "drop")⟩
+    let log ← jEntries (← fld j "log")
+    let snap ← jOptBools (← fld j "snap")
+    match sendOne c log (← jNat (← fld j "next")) snap (← jOptNat (fldD j "budget")) with
+    | .error e => return errJ e
+    | .ok r => return Json.mkObj [("msgs", Json.arr (r.msgs.map msgJ).toArray), ("next", nat r.next), ("spin", Json.bool r.spin),
+        ("batches", Json.arr (r.batches.map fun b => Json.str (batchStr b)).toArray), ("budget", optNat r.budget)]
+  | "sendall" =>
+    let cfg ← jConf (← fld j "conf")
+    let s ← jState (← fld j "state")
+    match sendAll cfg (fun _ => []) s (← jOptNat (fldD j "budget")) with
+    | .error e => return errJ e
+    | .ok (s', o) => return Json.mkObj [("out", outsJ o), ("state", stateJ s')]
+  | "check" =>
+    let cfg ← jConf (← fld j "conf")
+    let s ← jState (← fld j "state")
+    match checkCommands cfg (← jOptNat (fldD j "budget")) s with
+    | .error e => return errJ e
+    | .ok (s', o, brs) => return Json.mkObj [("out", outsJ o), ("state", stateJ s'),
+        ("branches", Json.arr (brs.map fun b => Json.str (branchStr b)).toArray)]
+  | "submit" =>
+    let cfg ← jConf (← fld j "conf")
+    let s ← jState (← fld j "state")
+    let (s', o) := submit cfg s (← jCmd (← fld j "cmd")) (← jCb (fldD j "cb"))
+    return Json.mkObj [("out", outsJ o), ("state", stateJ s')]
+  | "recv_apply" =>
+    let cfg ← jConf (← fld j "conf")
+    let s ← jState (← fld j "state")
+    let (s', o) := recvApplyCommand cfg s (← jNat (← fld j "from")) (← jCmd (← fld j "cmd")) (← jOptNat (fldD j "req"))
+    return Json.mkObj [("out", outsJ o), ("state", stateJ s')]
+  | "recv_response" =>
+    let s ← jState (← fld j "state")
+    let errJs := fldD j "err"
+    let res : Except FailReason (Nat × Nat) ← if errJs.isNull then
+        (do return Except.ok (← jNat (← fld j "idx"), ← jNat (← fld j "lterm")))
+      else (do
+        let c ← jNat errJs
+        let f ← match c with
+          | 1 => pure FailReason.queueFull | 2 => pure FailReason.missingLeader | 4 => pure FailReason.notLeader
+          | 5 => pure FailReason.leaderChanged | 6 => pure FailReason.requestDenied
+          | _ => throw "bad fail reason"
+        return Except.error f)
+    match recvResponse s (← jNat (← fld j "req")) res with
+    | .error e => return errJ e
+    | .ok (s', o) => return Json.mkObj [("out", outsJ o), ("state", stateJ s')]
+  | "leader_changed" =>
+    let s ← jState (← fld j "state")
+    let (s', o) := onLeaderChanged s
+    return Json.mkObj [("out", outsJ o), ("state", stateJ s')]
+  | "fappend" =>
+    let cfg ← jConf (← fld j "conf")
+    let s ← jState (← fld j "state")
+    let chunkJ := fldD j "chunk"
+    let chunk ← if chunkJ.isNull then pure none else (do
+      let a ← jArr chunkJ
+      if a.size != 2 then throw "chunk: need 2 fields"
+      return some (← jLabel a[0]!, ← jSpans a[1]!))
+    let entJ := fldD j "entries"
+    let es ← if entJ.isNull then pure [] else jEntries entJ
+    let m : AppendMsg := { prev := ← jPrev (fldD j "prev"), entries := es, chunk := chunk }
+    match followerAppend cfg s (← jNat (← fld j "from")) m with
+    | (s', .error e) => return Json.mkObj [("err", errStr e), ("state", stateJ s')]
+    | (s', .ok o) => return Json.mkObj [("out", outsJ o), ("state", stateJ s')]
+  | "restore" =>
+    let s ← jState (← fld j "state")
+    match restoreSnapshot s (← jEntry (← fld j "prevE")) (← jEntry (← fld j "lastE")) (← jNats (← fld j "cluster")) (← jBool (← fld j "dyn")) with
+    | .error e => return errJ e
+    | .ok (s', o) => return Json.mkObj [("out", outsJ o), ("state", stateJ s')]
+  | "reapply" =>
+    let s ← jState (← fld j "state")
+    match reapplyAtCommit s (← jEntry (← fld j "entry")) with
+    | .error e => return errJ e
+    | .ok (s', o) => return Json.mkObj [("out", outsJ o), ("state", stateJ s')]
+  | "chunks" =>
+    let B ← jNat (← fld j "B")
+    let E ← jNat (← fld j "E")
+    let ruleJ := fldD j "rule"
+    let spans := if ruleJ.isNull then chunkSpans B E else chunkSpansWith ((jNat ruleJ).toOption.getD E) B E
+    return Json.mkObj [("spans", Json.arr (spans.map fun c => Json.arr #[Json.str (labelStr c.1), nat c.2.1, nat c.2.2]).toArray)]
+  | "fold" =>
+    let m := foldConfig (← jOptNat (fldD j "self")) (← jNats (← fld j "base")) (← jEntries (← fld j "log"))
+    return Json.mkObj [("members", nats (sortNats m))]
+  | "admin_remove" =>
+    let s ← jState (← fld j "state")
+    return Json.mkObj [("denied", Json.bool (adminRemoveDenied s (← jNat (← fld j "node"))))]
+  | _ => throw s!"unknown op {op}"
+
+partial def loop (stdin stdout : IO.FS.Stream) : IO Unit := do
+  let line ← stdin.getLine
+  if line.isEmpty then return
+  let t := line.trimAscii.toString
+  if t.isEmpty then
+    loop stdin stdout
+  else
+    let res := match Json.parse t with
+      | .error e => Json.mkObj [("error", Json.str s!"parse: {e}")]
+      | .ok j => match handle j with
+        | .ok r => r
+        | .error e => Json.mkObj [("error", Json.str e)]
+    stdout.putStrLn res.compress
+    stdout.flush
+    loop stdin stdout
 
 def run : IO UInt32 := do
-  IO.eprintln "driver component NodeSend: not implemented"
-  return 3
+  loop (← IO.getStdin) (← IO.getStdout)
+  return 0
 
 end Driver.NodeSend
